@@ -2,9 +2,12 @@
    settings. Property theorems only; each is closed by [exact] of a lemma
    proved in Proofs/C03.v and followed by Print Assumptions.
 
-   [update/run ... true] is the repaired Filter.update
-   (fixes_proposed/C03-removed-range-keys.diff), [... false] the code before
-   the repair. [hashf] (PolygonFilter.hash) and [choice] (the seeded
+   [update/run ... true] is Filter.update with both repairs
+   (fixes_proposed/C03-removed-range-keys.diff = 1ad19c0 and
+   fixes_proposed/C03-valueerror-before-mutation.diff), [... false] the code
+   before the first repair. [err w' = false] says that the application did not
+   raise ValueError (C03_apply_raises_iff: it raises exactly when some range
+   has only one of its two keys). [hashf] (PolygonFilter.hash) and [choice] (the seeded
    np.random.choice behind "limit events") are oracles: their hypotheses are
    explicit and are checked on the implementation by harness/c03.py. *)
 From Coq Require Import ZArith List Bool.
@@ -13,8 +16,9 @@ Import ListNotations.
 Open Scope Z_scope.
 
 (* After ANY history of setting changes and applications (any length, any
-   order), one more application leaves all four filter arrays equal to the
-   stateless specification of the current settings. *)
+   order, including applications that raised), one more application that does
+   not raise leaves all four filter arrays equal to the stateless
+   specification of the current settings. *)
 Theorem C03_filter_history :
   forall (hashf : Z -> bool -> Z) (choice : Z -> Z -> list Z)
          (rows : list row) (feats : list Z),
@@ -22,12 +26,26 @@ Theorem C03_filter_history :
     forall (reg0 : registry) (ops : list op) (force : list Z),
       let w := run hashf choice rows feats true (init_world rows reg0) ops in
       let w' := update hashf choice rows feats true w force in
+      err w' = false ->
       a_all (flt w') = spec_all choice rows feats w /\
       a_box (flt w') = spec_box rows feats w /\
       a_polygon (flt w') = spec_polygon rows w /\
       a_invalid (flt w') = spec_invalid rows feats w.
-Proof. exact history. Qed.
+Proof. exact history_ok. Qed.
 Print Assumptions C03_filter_history.
+
+(* An application raises exactly when the current settings hold a range with
+   only one of its two keys, whatever happened before. *)
+Theorem C03_apply_raises_iff :
+  forall (hashf : Z -> bool -> Z) (choice : Z -> Z -> list Z)
+         (rows : list row) (feats : list Z),
+    (forall v b v' b', hashf v b = hashf v' b' -> v = v' /\ b = b') ->
+    forall (reg0 : registry) (ops : list op) (force : list Z),
+      let w := run hashf choice rows feats true (init_world rows reg0) ops in
+      err (update hashf choice rows feats true w force) = true
+      <-> exists f, half_set (rng (cfg w)) f = true.
+Proof. exact history_raises. Qed.
+Print Assumptions C03_apply_raises_iff.
 
 (* With an event limit set, exactly min(limit, number of qualifying events)
    events remain after any history, and every one of them qualifies. *)
@@ -41,6 +59,7 @@ Theorem C03_limit_exact :
          Forall (fun i => 0 <= i < m) (choice m k)) ->
       let w := run hashf choice rows feats true (init_world rows reg0) ops in
       let w' := update hashf choice rows feats true w force in
+      err w' = false ->
       enable (cfg w) = true -> 0 < limit (cfg w) ->
       count_true (a_all (flt w'))
       = Z.min (limit (cfg w)) (count_true (spec_qual rows feats w)) /\
@@ -56,6 +75,7 @@ Theorem C03_no_limit_all_qualifying :
     (forall v b v' b', hashf v b = hashf v' b' -> v = v' /\ b = b') ->
     forall (reg0 : registry) (ops : list op) (force : list Z),
       let w := run hashf choice rows feats true (init_world rows reg0) ops in
+      err (update hashf choice rows feats true w force) = false ->
       enable (cfg w) = true -> limit (cfg w) <= 0 ->
       a_all (flt (update hashf choice rows feats true w force))
       = spec_qual rows feats w.
@@ -69,6 +89,7 @@ Theorem C03_disabled_selects_all :
     (forall v b v' b', hashf v b = hashf v' b' -> v = v' /\ b = b') ->
     forall (reg0 : registry) (ops : list op) (force : list Z),
       let w := run hashf choice rows feats true (init_world rows reg0) ops in
+      err (update hashf choice rows feats true w force) = false ->
       enable (cfg w) = false ->
       a_all (flt (update hashf choice rows feats true w force))
       = map (fun _ => true) rows.
@@ -86,6 +107,8 @@ Theorem C03_selection_depends_on_settings_only :
       let w1 := run hashf choice rows feats true (init_world rows reg1) ops1 in
       let w2 := run hashf choice rows feats true (init_world rows reg2) ops2 in
       cfg w1 = cfg w2 -> reg w1 = reg w2 -> manual (flt w1) = manual (flt w2) ->
+      err (update hashf choice rows feats true w1 force1) = false ->
+      err (update hashf choice rows feats true w2 force2) = false ->
       a_all (flt (update hashf choice rows feats true w1 force1))
       = a_all (flt (update hashf choice rows feats true w2 force2)).
 Proof. exact history_reproducible. Qed.
@@ -102,7 +125,7 @@ Theorem C03_spec_range_semantics :
 Proof. exact (conj in_range_nan (conj in_range_swap in_range_inclusive)). Qed.
 Print Assumptions C03_spec_range_semantics.
 
-(* The code before the repair does NOT satisfy the history theorem: set a
+(* The code before repair 1ad19c0 does NOT satisfy the history theorem: set a
    range, apply, delete the range; the next application keeps the old box
    filter (one event with deform = 1, range [0.25, 0.75]). *)
 Theorem C03_filter_history_unrepaired_refuted :
